@@ -24,6 +24,8 @@ import (
 	"testing/synctest"
 	"time"
 
+	"github.com/celestiaorg/go-header"
+	"github.com/celestiaorg/go-header/store"
 	hsync "github.com/celestiaorg/go-header/sync"
 
 	"verifharness/mbt"
@@ -114,10 +116,16 @@ func syncExploreOnce(t *testing.T, id int, rnd *rand.Rand) (evs []SyncEv, cfg st
 	}
 	var script []offer
 	top := 1
+	// every fourth run: the Store's Append is in step with its Head for some calls and lags (as the real one) for others
+	stepMode := id%4 == 3
 	for top < N && len(script) < 6 {
 		switch r := rnd.Intn(10); {
 		case r < 6:
-			top += 1 + rnd.Intn(3)
+			if stepMode && rnd.Intn(10) < 7 {
+				top++ // mostly adjacent heads: they go to the Store directly
+			} else {
+				top += 1 + rnd.Intn(3)
+			}
 			if top > N {
 				top = N
 			}
@@ -128,16 +136,32 @@ func syncExploreOnce(t *testing.T, id int, rnd *rand.Rand) (evs []SyncEv, cfg st
 			// the highest head offered so far again, as it is or forged: known by now, must be refused whatever the
 			// sync loop is doing with it at that moment
 			script = append(script, offer{[]string{"stale", "forgedSame"}[rnd.Intn(2)], top})
+		case r < 9 && top > 1:
+			// a valid sibling of a header the node knows already (same height, same parent, different content):
+			// known, must be refused
+			script = append(script, offer{"fork", 2 + rnd.Intn(top-1)})
 		default:
 			script = append(script, offer{"wrongchain", top + 1 + rnd.Intn(2)})
 		}
 	}
 	nHead := rnd.Intn(4)
-	cfg = fmt.Sprintf("n=%d script=%v headCallers=%d", N, script, nHead)
+	cfg = fmt.Sprintf("n=%d script=%v headCallers=%d step=%v", N, script, nHead, stepMode)
 	synctest.Test(t, func(t *testing.T) {
 		bg := context.Background()
 		chain := vh.NewChain("c", 1, N+8, time.Now().Add(-time.Duration(N+10)*time.Second), time.Second, 0)
+		if stepMode {
+			var smu sync.Mutex
+			srnd := rand.New(rand.NewSource(int64(id)*7919 + 13))
+			storeWrap = func(st *store.Store[*vh.Header]) header.Store[*vh.Header] {
+				return &stepStore{Store: st, inStep: func() bool {
+					smu.Lock()
+					defer smu.Unlock()
+					return srnd.Intn(2) == 0
+				}}
+			}
+		}
 		n := newNode(t, chain, 1, 1+id%3, hsync.WithBlockTime(time.Hour))
+		storeWrap = nil
 		sc := &xsched{gates: map[string]chan struct{}{}, at: map[string]string{}}
 		var learnedMu sync.Mutex
 		learned := 1 // highest valid head offered so far (by gossip or as a Head() answer)
@@ -260,6 +284,8 @@ func syncExploreOnce(t *testing.T, id int, rnd *rand.Rand) (evs []SyncEv, cfg st
 				case "wrongchain":
 					hdr = chain.At(uint64(o.h)).Clone()
 					hdr.Chain = "otherchain"
+				case "fork":
+					hdr = chain.Fork(uint64(o.h), uint64(500+nextOffer)).At(uint64(o.h))
 				}
 				mu.Lock()
 				gossipBusy = true
